@@ -696,7 +696,65 @@ def check_string_probes(program, rep):
                nontrivial=False)
 
 
+def check_replaced_by_identity(program, rep):
+    """Whether an argument was replaced by a transformer is a question about
+    identity: `f(arg) != arg` / `== arg` asks the objects' own __eq__ - a
+    referenced object that compares equal to strings (a permissive sentinel,
+    unittest.mock.ANY) is taken for "unchanged" and the component receives
+    the raw '${...}' text."""
+    mod = program.modules['desper.model.world']
+    n = 0
+    for fn in program.all_functions():
+        if fn.module is not mod:
+            continue
+        params = set(fn.params())
+        # names bound to the result of calling a parameter on one argument
+        mapped = {}
+        for x in ast.walk(fn.node):
+            tgt = val = None
+            if isinstance(x, ast.NamedExpr):
+                tgt, val = x.target, x.value
+            elif isinstance(x, ast.Assign) and len(x.targets) == 1:
+                tgt, val = x.targets[0], x.value
+            if isinstance(tgt, ast.Name) and isinstance(val, ast.Call) \
+                    and isinstance(val.func, ast.Name) and val.func.id \
+                    in params and len(val.args) == 1:
+                mapped[tgt.id] = norm(val.args[0])
+
+        def source(e):
+            if isinstance(e, ast.NamedExpr):
+                e = e.value
+            if isinstance(e, ast.Call) and isinstance(e.func, ast.Name) \
+                    and e.func.id in params and len(e.args) == 1:
+                return norm(e.args[0])
+            if isinstance(e, ast.Name) and e.id in mapped:
+                return mapped[e.id]
+            return None
+        for c in ast.walk(fn.node):
+            if not (isinstance(c, ast.Compare) and len(c.ops) == 1):
+                continue
+            l, r = c.left, c.comparators[0]
+            for a, b in ((l, r), (r, l)):
+                src = source(a)
+                if src is None or norm(b) != src:
+                    continue
+                n += 1
+                if isinstance(c.ops[0], (ast.Eq, ast.NotEq)):
+                    rep.bad('C15.markers', fn.where, c,
+                            f'`{norm(c)}` decides by equality whether the '
+                            'transformer replaced the argument: a referenced '
+                            'object whose __eq__ accepts strings is taken for '
+                            '"unchanged" and the raw marker text is passed to '
+                            'the component', line=c.lineno)
+                else:
+                    rep.ok('C15.markers', fn.where, norm(c),
+                           'replacement of an argument is decided by '
+                           'identity', line=c.lineno)
+    return n
+
+
 def check_markers(program, rep):
+    check_replaced_by_identity(program, rep)
     check_string_probes(program, rep)
     mod = program.modules['desper.model.world']
     site = mod.relpath
